@@ -459,7 +459,39 @@ pub fn false_restrictions(rng: &mut Rng, cast: &Cast, held: usize) -> Value {
 }
 
 /// a random plan whose demands the chosen credentials meet (C04's quantifier); `w3c`: no self-attested referents
+/// boundary shapes an honest holder can produce: a credential that reveals nothing and proves no predicate, one that only
+/// proves a predicate, an unrevealed group, the same next to an ordinary credential
+pub fn extreme_plans(rng: &mut Rng, cast: &Cast) -> Vec<Plan> {
+    let mk = |refs: Vec<RefPlan>, helds: &[&str], rng: &mut Rng| Plan {
+        creds: helds.iter().map(|h| CredUse { held: cast.cred(h), state_list: None, ts_only: None }).collect(),
+        refs,
+        global_nr: None,
+        nonce: format!("{}", 1000 + rng.below(1_000_000_000)),
+        holder: 0,
+    };
+    let va = cast.creds[cast.cred("a_alice")].values.clone();
+    let vc = cast.creds[cast.cred("c_alice")].values.clone();
+    let single = |r: &str, n: &str, c: usize, rev: bool| RefPlan { referent: r.into(), kind: Kind::Single(n.into()), cred: Some(c), revealed: rev, restrictions: None, non_revoked: None };
+    let (pn, pv) = va.iter().find(|(_, v)| v.parse::<i32>().is_ok()).map(|(k, v)| (k.clone(), v.parse::<i32>().unwrap())).unwrap();
+    let pred = |r: &str, c: usize| RefPlan { referent: r.into(), kind: Kind::Pred(pn.clone(), "GE", pv - 1), cred: Some(c), revealed: false, restrictions: None, non_revoked: None };
+    vec![
+        mk(vec![single("u0", &va[0].0, 0, false)], &["a_alice"], rng),
+        mk(vec![single("u0", &va[0].0, 0, false), single("u1", &va[1].0, 0, false)], &["a_alice"], rng),
+        mk(vec![RefPlan { referent: "ug".into(), kind: Kind::Group(vec![va[0].0.clone(), va[2].0.clone()]), cred: Some(0), revealed: false, restrictions: None, non_revoked: None }], &["a_alice"], rng),
+        mk(vec![pred("p0", 0)], &["a_alice"], rng),
+        mk(vec![single("r0", &vc[0].0, 0, true), single("u0", &va[0].0, 1, false)], &["c_alice", "a_alice"], rng),
+        mk(vec![single("u0", &va[0].0, 0, false), single("r0", &vc[0].0, 1, true)], &["a_alice", "c_alice"], rng),
+        mk(vec![pred("p0", 0), single("u0", &vc[0].0, 1, false)], &["a_alice", "c_alice"], rng),
+    ]
+}
+
 pub fn gen_honest_plan(rng: &mut Rng, cast: &Cast, w3c: bool, with_rev: bool) -> Plan {
+    // one plan in six is a boundary shape
+    if !with_rev && rng.chance(1, 6) {
+        let mut e = extreme_plans(rng, cast);
+        let i = rng.below(e.len() as u64) as usize;
+        return e.swap_remove(i);
+    }
     let alice: Vec<usize> = cast.creds.iter().enumerate().filter(|(_, c)| c.holder == 0 && (with_rev || c.rev.is_none())).map(|(i, _)| i).collect();
     let n = 1 + rng.below(3) as usize;
     let mut chosen: Vec<usize> = vec![];
@@ -583,6 +615,18 @@ pub fn gen_honest_plan(rng: &mut Rng, cast: &Cast, w3c: bool, with_rev: bool) ->
             }
         }
     }
+    // a request may not use a new tag name and its legacy spelling together (`verify_presentation` refuses such a request
+    // outright): an honest verifier writes one spelling, so the legacy-spelled restrictions give way
+    for (new_tag, old_tag) in [("\"issuer_id\"", "\"issuer_did\""), ("\"schema_issuer_id\"", "\"schema_issuer_did\"")] {
+        let has = |r: &RefPlan, t: &str| r.restrictions.as_ref().map(|q| q.to_string().contains(t)).unwrap_or(false);
+        if refs.iter().any(|r| has(r, new_tag)) {
+            for r in refs.iter_mut() {
+                if has(r, old_tag) {
+                    r.restrictions = None;
+                }
+            }
+        }
+    }
     Plan { creds, refs, global_nr, nonce: format!("{}", 1000 + rng.below(1_000_000_000)), holder: 0 }
 }
 
@@ -598,7 +642,10 @@ pub fn honest_vopts(cast: &Cast, plan: &Plan) -> VOpts {
             }
         }
     }
-    VOpts { lists: if any_rev { Some(lists) } else { None }, rev_reg_defs: any_rev, ..Default::default() }
+    // every other plan is verified by a verifier that resolves exactly the definitions the presentation uses
+    let used: Vec<usize> = plan.creds.iter().enumerate().filter(|(ci, _)| plan.refs.iter().any(|r| r.cred == Some(*ci))).map(|(_, cu)| cast.creds[cu.held].def).collect();
+    let narrow = plan.nonce.bytes().last().map(|b| b % 2 == 0).unwrap_or(false);
+    VOpts { lists: if any_rev { Some(lists) } else { None }, rev_reg_defs: any_rev, only_defs: if narrow { Some(used) } else { None }, ..Default::default() }
 }
 
 // helpers for typed W3C alterations -------------------------------------------------------------
